@@ -226,6 +226,44 @@ func init() {
 		Undecided: []string{"content of the data fork stream = bytes on disk (os.File semantics, assumed)", "resume offset taken from the wire form of the resume data (FileResumeData.UnmarshalBinary not under contract)", "files of 4 GiB and more (32-bit size fields wrap)"},
 		Assumptions: []string{"a stored .info_<name> file is a well-formed info fork (NewFileWrapper's contract on the header invariant is assumed, its body reads the file)"},
 	}
+	plans["C10"] = &Plan{
+		Items: append([]Item{
+			{Plugin: "streams", Func: "hotline.DownloadFolderHandler$1", Kinds: siteKinds, Depth: 2,
+				Env: []string{"hotline.NewFileWrapper", "io.ReadFull", "(*hotline.FileResumeData).UnmarshalBinary", "(*hotline.fileWrapper).rsrcForkFile"}},
+			{Plugin: "sites", Func: "hotline.CalcItemCount", Kinds: []string{"site"}},
+			{Plugin: "sites", Func: "hotline.UploadFolderHandler", Kinds: []string{"site"}},
+			{Plugin: "handler-contract", Func: "mobius.HandleDownloadFolder", Kinds: []string{"site"}},
+			{Plugin: "handler-contract", Func: "mobius.HandleUploadFolder", Kinds: []string{"site"}},
+			{Plugin: "sites", Func: "hotline.receiveFile", Kinds: siteKinds},
+		}, fnItems(nil, "hotline.CalcItemCount$1", "hotline.(*FileHeader).Read", "hotline.NewFileHeader", "hotline.EncodeFilePath", "hotline.(*FileResumeData).UnmarshalBinary")...),
+		Decided: []string{
+			"both walk callbacks: an entry is counted / gets an item header exactly when the walk reported no error for it and its name does not start with a dot (the download additionally skips the first visited entry, the count subtracts one); neither callback prunes the walk or fails unless the walk or the environment did",
+			"folder download, per entry: header first (FileHeader cursor contract), then on a send or resume choice the size prefix TransferSize(offset), the flattened header, the data fork positioned at the offset and copied to its end; a next-file choice sends nothing more",
+			"folder upload: partial files are opened with O_APPEND and without O_TRUNC; a name becomes final only after receiveFile returned nil; the action sent follows what is on disk (complete: next, partial: resume, absent: send); the resume offset sent is the partial file's size; folders are created only when missing",
+			"HandleDownloadFolder: refusal only on the privilege; fields 220 and 108 are CalcItemCount / CalcTotalSize of the addressed folder",
+		},
+		Undecided: []string{"filepath.Walk's order and that it visits every entry once (library)", "equality of the uploaded and re-downloaded tree (composition over histories)", "the resource fork of a folder item is sent only when an info fork file exists (ForkCount == 3) although the size prefix always includes it: not decided here"},
+	}
+	plans["C11"] = &Plan{
+		Items: []Item{
+			{Plugin: "paths", Func: "hotline.(*fileWrapper).Move", Kinds: siteKinds},
+			{Plugin: "paths", Func: "hotline.(*fileWrapper).Delete", Kinds: siteKinds},
+			{Plugin: "paths", Func: "hotline.NewFileWrapper", Kinds: []string{"site"}},
+			{Plugin: "sites", Func: "hotline.GetFileNameList", Kinds: []string{"site", "pre-at-call", "inv-init", "inv-step"}},
+			{Plugin: "sites", Func: "hotline.(*fileWrapper).TotalSize", Kinds: []string{"site"}},
+			{Plugin: "paths", Func: "mobius.HandleNewFolder", Kinds: []string{"site"}},
+			{Plugin: "paths", Func: "mobius.HandleSetFileInfo", Kinds: []string{"site"}},
+			{Func: "hotline.(*FileNameWithInfo).Read"}, {Func: "hotline.ignoreFile"}, {Func: "hotline.fileTypeFromFilename"},
+		},
+		Decided: []string{
+			"fileWrapper.Move renames the data fork and then each side file (.incomplete, .rsrc_, .info_) from the wrapper's own path to the name derived from the wrapper's current name in the new directory, and reports success only after all four; Delete removes the same four paths; NewFileWrapper derives the three side-file paths from the addressed path",
+			"GetFileNameList: an entry is listed only if the ignore filter (called with the entry's own name and the configured list) passes it; the listed name is the entry's name with the partial-upload suffix removed, Mac-Roman encoded; the name length field equals the encoded length (cursor precondition at the drain site); folder item counts use the same ignore list; the list field is field 200 holding exactly the drained entry",
+			"TotalSize of a file without resource fork is its size on disk minus the wrapper's offset (mod 2^32)",
+			"HandleNewFolder creates the folder only when os.IsNotExist holds for the very path it creates; HandleSetFileInfo renames a file by moving the wrapper, carrying the base name of the resolved new path, within the file's own folder",
+		},
+		Undecided: []string{"agreement of list / get-info / download reply on type and creator codes (three call chains over file_types tables)", "sequences of operations against a reference namespace (whole-history)", "that every non-ignored entry is listed (the loop's skip conditions are not under an invariant)", "make-alias, set-comment"},
+		Assumptions: []string{"a directory entry name is at most 255 bytes (NAME_MAX) and Mac-Roman encoding does not lengthen it (assumed contracts of os.DirEntry.Name and encoding.Encoder.String)"},
+	}
 	plans["C14"] = &Plan{
 		Items: append([]Item{
 			{Plugin: "sites", Func: "hotline.(*Server).sendTransaction", Kinds: siteKinds},
